@@ -1,15 +1,24 @@
 """
 C15 - A type's name, version and port-ID are exactly those encoded in its file path.
 
-Covered: (a) the basename-parsing block of DSDLDefinition.__init__, cut out mechanically by AST position (the top-level
-statements after the assignment of `relative_path` up to the assignment of `self._cached_type`) and verified as a function
-of the pure path `relative_path` (= <root namespace directory name>/<path of the file relative to the root>);
-(b) the directory-consistency check of CompositeType.__init__ (search_up_for_root) - stated in specs/c05.py.
+Covered:
+ (a) the basename-parsing block of DSDLDefinition.__init__, cut out mechanically by AST position (`body_slice`: the
+     top-level statements after the assignment of `relative_path` up to the assignment of `self._cached_type`; dropped: the
+     resolve()/exists() prelude, which only produces `relative_path`) and verified as a function of the pure path
+     `relative_path` = <root namespace directory name>/<path of the file relative to the root>.
+     Finite instantiation over the *shape* of the basename: exactly 4 / exactly 5 dot-separated components (the components
+     are separate string variables that contain no '.'; `'.'.join` / `split('.')` are mutually inverse there - assumed),
+     or any other number of components (symbolic).  Directories: a symbolic sequence of any length.
+ (b) the directory-consistency check of CompositeType.__init__ (search_up_for_root) - stated and verified in specs/c05.py.
+
+Oracle (statement): accepted iff basename = [<port>.]<Short>.<major>.<minor>.<ext> with *decimal numbers* ([0-9]+) and no
+directory name contains '.'; then full_name = '.'.join(dirs + [Short]), version and fixed_port_id are those numbers.
+`int(str)` is modelled as "accepts exactly Python's integer-literal syntax" (pyvc/strmodel.py).
 """
 import z3
 from pyvc import strmodel
 from pyvc.spec import contract, class_spec
-from pyvc.values import Int, Bool, Str, Opt, SeqOf, ObjOf, PathK, Rec
+from pyvc.values import Int, Bool, Str, Opt, SeqOf, ObjOf, PathK, Rec, Kind, PathV, JoinedStr, PathSort, SymSeq, PyList
 from pyvc.speclib import AND, OR, NOT, IMPLIES, IFF, ITE, EQ, IS_NONE, VAL, FORALL_IDX, EXISTS_IDX, LEN, AT, smt
 from pyvc import speclib
 from .common import VersionK
@@ -19,7 +28,7 @@ strmodel.enable()
 P = ["C15"]
 LEVEL = "proof"
 DEF = "pydsdl._dsdl_definition.DSDLDefinition"
-NAME_MAX = 255  # longest file name of the supported file systems (bytes, hence characters)
+NAME_MAX = 255  # longest file name of the supported file systems; also keeps int() below its 4300-digit limit
 
 
 @class_spec(DEF)
@@ -31,8 +40,43 @@ def _lib():
     return speclib.CTX.engine.lib
 
 
-def BASENAME(p):
-    return _lib().path_attr(speclib.CTX, p, "name") if smt() else p.name
+class RelPathK(Kind):
+    """The relative path of a definition file: directories = a symbolic sequence of strings; basename = `ncomp` dot-separated
+    components given as separate string variables without '.', or (ncomp None) any string whose number of components is
+    neither 4 nor 5."""
+
+    def __init__(self, ncomp):
+        self.ncomp = ncomp
+
+    def build(self, ctx, mk):
+        term = mk("", PathSort)
+        dot = z3.StringVal(".")
+        if self.ncomp is None:
+            name = mk("!name", z3.StringSort())
+            n = ctx.engine.lib.split_seq(ctx, name, ".").length
+            ctx.assume(z3.And(n != 4, n != 5, z3.Length(name) <= NAME_MAX))
+        else:
+            comps = [mk("!c%d" % k, z3.StringSort()) for k in range(self.ncomp)]
+            for c in comps:
+                ctx.assume(z3.Not(z3.Contains(c, dot)))
+            name = JoinedStr(comps, ".")
+            ctx.assume(z3.Length(name.term) <= NAME_MAX)
+        dirs = SeqOf(Str).build(ctx, lambda s, so: mk("!dirs" + s, so))
+        parent = PathV(mk("!parent", PathSort), {"parts": dirs})
+        return PathV(term, {"name": name, "parent": parent})
+
+    def __repr__(self):
+        return "%s-components" % (self.ncomp if self.ncomp is not None else "other-number-of")
+
+
+def BASENAME_PARTS(p):
+    """the dot-separated components of the file name"""
+    if smt():
+        name = _lib().path_attr(speclib.CTX, p, "name")
+        if isinstance(name, JoinedStr):
+            return PyList(list(name.parts))
+        return _lib().split_seq(speclib.CTX, name, ".")
+    return p.name.split(".")
 
 
 def DIRS(p):
@@ -49,49 +93,57 @@ def PARTS(name):
 def IS_DECIMAL(x):
     """a decimal number: one or more of the digits 0-9"""
     if smt():
-        return z3.InRe(x, z3.Plus(z3.Range(z3.StringVal("0"), z3.StringVal("9"))))
+        return z3.InRe(Str.unwrap(x), z3.Plus(z3.Range(z3.StringVal("0"), z3.StringVal("9"))))
     return len(x) > 0 and all(c in "0123456789" for c in x)
 
 
 def NUM(x):
     if smt():
-        return z3.StrToInt(x)
+        return z3.StrToInt(Str.unwrap(x))
     return int(x)
 
 
-def WELL_FORMED(p):
-    """basename = [<port>.]<Short>.<major>.<minor>.<ext> with decimal numbers, directories without '.'"""
-    parts = PARTS(BASENAME(p))
+def HAS_DOT(d):
+    return z3.Contains(Str.unwrap(d), z3.StringVal(".")) if smt() else "." in d
+
+
+def REJECTED(p):
+    """not of the form [<port>.]<Short>.<major>.<minor>.<ext> with decimal numbers below directories without '.':
+    one disjunct per reason"""
+    parts = BASENAME_PARTS(p)
     n = LEN(parts)
-    dirs = DIRS(p)
-    nodot = FORALL_IDX(dirs, lambda i, d: NOT(z3.Contains(d, z3.StringVal(".")) if smt() else "." in d))
-    return AND(OR(n == 4, n == 5),
-               lambda: IS_DECIMAL(AT(parts, n - 3)), lambda: IS_DECIMAL(AT(parts, n - 2)),
-               lambda: IMPLIES(n == 5, lambda: IS_DECIMAL(AT(parts, 0))), nodot)
+    if smt() and not isinstance(n, int):
+        return NOT(OR(n == 4, n == 5))  # the symbolic instance: another number of components
+    if n not in (4, 5):
+        return True
+    return OR(NOT(IS_DECIMAL(AT(parts, n - 3))), NOT(IS_DECIMAL(AT(parts, n - 2))),
+              (NOT(IS_DECIMAL(AT(parts, 0))) if n == 5 else False),
+              EXISTS_IDX(DIRS(p), lambda i, d: HAS_DOT(d)))
 
 
 @contract(DEF + ".__init__@basename", props=P)
 class _Basename:
-    body_slice = {"after_assign": "relative_path", "until_assign_attr": "_cached_type", "params": ["relative_path"]}
-    params = dict(relative_path=PathK)
-    # fields assigned by the dropped prelude (file-system normalisation); only used in error messages
-    instances = [{"self._file_path": PathK, "self._root_namespace_path": PathK}]
-    raises = {"FileNameFormatError": lambda s: NOT(WELL_FORMED(s.relative_path))}
-
-    def pre(s):
-        return {"file-name-length": (z3.Length(BASENAME(s.relative_path)) if smt() else len(s.relative_path.name)) <= NAME_MAX}
+    body_slice = {"after_assign": "relative_path", "until_assign_attr": "_cached_type", "params": ["relative_path"],
+                  # fields assigned by the dropped prelude (file-system normalisation); only used in error messages
+                  "self_fields": {"_file_path": PathK, "_root_namespace_path": PathK}}
+    instances = [{"relative_path": RelPathK(n)} for n in (4, 5, None)]  # the shape of the basename
+    raises = {"FileNameFormatError": lambda s: REJECTED(s.relative_path)}
 
     def post(s):
         p = s.relative_path
-        parts = PARTS(BASENAME(p))
+        parts = BASENAME_PARTS(p)
         n = LEN(parts)
+        if smt() and not isinstance(n, int):
+            return {"accepted-only-with-4-or-5-components": False}
         dirs = DIRS(p)
         comps = PARTS(s.self._name)
         return {
-            "well-formed": WELL_FORMED(p),
+            "major-is-decimal": IS_DECIMAL(AT(parts, n - 3)),
+            "minor-is-decimal": IS_DECIMAL(AT(parts, n - 2)),
+            "port-id-is-decimal": IS_DECIMAL(AT(parts, 0)) if n == 5 else True,
             "version": AND(s.self._version.major == NUM(AT(parts, n - 3)), s.self._version.minor == NUM(AT(parts, n - 2))),
-            "port-id": ITE(n == 5, AND(NOT(IS_NONE(s.self._fixed_port_id)), lambda: VAL(s.self._fixed_port_id) == NUM(AT(parts, 0))),
-                           IS_NONE(s.self._fixed_port_id)),
+            "port-id": (AND(NOT(IS_NONE(s.self._fixed_port_id)), lambda: VAL(s.self._fixed_port_id) == NUM(AT(parts, 0)))
+                        if n == 5 else IS_NONE(s.self._fixed_port_id)),
             # the full name is the directories followed by the short name, separated by '.'
             "name-components": AND(LEN(comps) == LEN(dirs) + 1,
                                    FORALL_IDX(dirs, lambda i, d: AT(comps, i) == d),
@@ -99,5 +151,103 @@ class _Basename:
         }
 
 
-NOT_COVERED = []
-EXPLANATION = ""
+def _register_parse_decimal():
+    """`_parse_decimal_number` exists only in a tree with the fix notes/C15-fix-1.patch (strict decimal parsing)."""
+    from pyvc.frontend import load_repo
+
+    q = "pydsdl._dsdl_definition._parse_decimal_number"
+    if q not in load_repo().functions:
+        return False
+
+    @contract(q, props=P)
+    class _ParseDecimal:
+        params = dict(text=Str)
+        returns = Int
+        raises = {"ValueError": lambda s: NOT(IS_DECIMAL(s.text))}
+
+        def pre(s):
+            return {"shorter-than-the-int-digit-limit": (z3.Length(s.text) if smt() else len(s.text)) <= NAME_MAX}
+
+        def post(s):
+            return {"decimal-value": s.result == NUM(s.text)}
+
+    return True
+
+
+STRICT_PARSER_PRESENT = _register_parse_decimal()
+
+
+# ------------------------------------------------------------------------------------------------ native harness
+from pyvc.native import NativeSuite  # noqa: E402
+
+NATIVE = NativeSuite()
+NATIVE_BUDGET = {"quick": 300, "thorough": 3000}
+_BASENAMES = ["Foo.1.0.dsdl", "7509.Foo.1.0.dsdl", "Foo.+1.0.dsdl", "Foo.1_0.0.dsdl", "Foo. 1.0.dsdl", "Foo.١.0.dsdl",
+              "+7509.Foo.1.0.dsdl", "Foo.1.-0.dsdl", "Foo.1.0", "Foo.dsdl", "a.b.Foo.1.0.dsdl", "Foo.1.0.dsdl.bak", "Foo.x.0.dsdl",
+              "Foo.1..dsdl", ".Foo.1.0.dsdl", "Foo.01.00.dsdl", "1_0.Foo.1.0.dsdl", "Foo.1.0.", "x.Foo.1.0.dsdl", "Foo.１.0.dsdl",
+              "Foo.1.0 .dsdl", "Foo.255.255.uavcan"]
+
+
+def _gen_path(rng, i):
+    base = _BASENAMES[i] if i < len(_BASENAMES) else ".".join(
+        rng.choice(["Foo", "1", "0", "+1", "1_0", " 2", "x", "", "42", "٣"]) for _ in range(rng.choice([3, 4, 4, 5, 5, 6])))
+    dirs = rng.choice([["ns"], ["ns", "sub"], ["ns", "a.b"], ["ns", "x", "y"]])
+    return {"dirs": dirs, "base": base}
+
+
+def _build_basename(desc):
+    import ast as _ast
+    import inspect
+    import textwrap
+    from pathlib import PurePosixPath
+    from pydsdl import _dsdl_definition as M
+
+    # the same mechanical slice, executed natively: statements after `relative_path = ...` up to `self._cached_type = ...`
+    src = textwrap.dedent(inspect.getsource(M.DSDLDefinition.__init__))
+    fn = _ast.parse(src).body[0]
+    start = end = None
+    for k, st in enumerate(fn.body):
+        tg = st.targets if isinstance(st, _ast.Assign) else [st.target] if isinstance(st, _ast.AnnAssign) else []
+        for t in tg:
+            if isinstance(t, _ast.Name) and t.id == "relative_path" and start is None:
+                start = k + 1
+            if isinstance(t, _ast.Attribute) and t.attr == "_cached_type" and start is not None and end is None:
+                end = k
+    fn.body = fn.body[start:end]
+    fn.args.args = [_ast.arg(arg="self"), _ast.arg(arg="relative_path")]
+    fn.name = "_basename_slice"
+    mod = _ast.Module(body=[fn], type_ignores=[])
+    _ast.fix_missing_locations(mod)
+    ns = dict(vars(M))
+    exec(compile(mod, "<slice of DSDLDefinition.__init__>", "exec"), ns)
+    rel = PurePosixPath(*desc["dirs"]) / desc["base"]
+
+    class _Obj:
+        pass
+
+    obj = _Obj()
+    obj._file_path = rel
+    obj._root_namespace_path = PurePosixPath(desc["dirs"][0])
+
+    def call():
+        ns["_basename_slice"](obj, rel)
+        return obj
+
+    return call, {"relative_path": rel, "self": obj}
+
+
+NATIVE.add(DEF + ".__init__@basename", _gen_path, _build_basename)
+
+NOT_COVERED = [
+    "the four root-inference strategies of read_files / DSDLDefinition.from_first_in and every claim about relative / "
+    "absolute / symlink spellings (file-system calls interleaved with the logic)",
+    "the resolve()/exists() prelude of DSDLDefinition.__init__ (dropped by the slice) and that `relative_path` is the path "
+    "relative to the root namespace directory (pathlib)",
+    "source_file_path / source_file_path_to_root accessors (return what was stored)",
+]
+EXPLANATION = ("The basename block of DSDLDefinition.__init__ (mechanical AST slice) raises FileNameFormatError iff the file name "
+               "is not [<port>.]<Short>.<major>.<minor>.<ext> with decimal numbers below directories without '.'; on acceptance "
+               "version / port-ID are the decimal values and the full name's components are the directories followed by the "
+               "short name.  The directory-consistency check of CompositeType.__init__ is verified in specs/c05.py.")
+ASSUMPTIONS = ["str.join / str.split with a one-character separator are mutually inverse on sequences whose elements do not "
+               "contain it", "file names are at most 255 characters long (int() digit limit not reached)"]
